@@ -25,7 +25,8 @@ TRUSTED = [
     "Coq 8.16.1 kernel (coqc); every theorem of Properties_C03.v is 'Closed under the global context'",
     "extraction to OCaml with ExtrOcamlBasic only, ocamlfind ocamlopt, extract/driver.ml sexp I/O",
     "harness/dom (Rust) `h_dom c03` building real tachys views (String, (), HtmlElement<P|Span|Div> with id/hidden/"
-    "class/class:on/style attributes, tuples, Either, Option, Vec, StaticVec, keyed, AnyView) on the native in-memory "
+    "class/class:on/style attributes, i32, &'static str, tuples, arrays, Either, EitherOf3, Option, Vec, StaticVec, "
+    "keyed, AnyView) on the native in-memory "
     "DOM of the verif-hook commit, trusted to implement DOM insertBefore/remove/setAttribute/classList semantics",
     "modelled, not verified: the DOM (Dom/View.v: a parent's child list of node trees; attributes as four slots), "
     "TypeId equality of AnyView as equality of the shape constructor (element tag, tuple arity), itertools::zip_longest, "
@@ -39,11 +40,14 @@ ASSUMPTIONS = [
 ]
 LEVEL_TEXT = "proof"
 LEVEL_NOTE = ("unbounded machine-checked proof (rebuild = fresh render, for every sibling context, nesting depth and "
-              "history) for text, unit, elements with id/hidden/class/style attributes, tuples, Either, Option, Vec and "
-              "AnyView type changes; StaticVec (F-C03-ab) and an active class:on toggle (F-C03-c) are excluded by the "
-              "hypothesis okv and refuted by three proved witnesses; keyed lists are covered by C11 and by the oracle "
-              "here; the theorems speak about the id-free content function cs/cv of the model, the serialisation used "
-              "for the comparison with the implementation walks the same state")
+              "history) for text (String, &str, i32), unit, elements with id/hidden/class/class:on/style attributes, "
+              "tuples, arrays, Either, EitherOf3, Option, Vec and AnyView type changes; node-less views (StaticVec / "
+              "Fragment, empty array: F-C03-ab) and exactly the failing class:on sub-case (F-C03-c, predicate compat) "
+              "are excluded by hypotheses and refuted by three proved witnesses; keyed lists: the model runs C11's "
+              "proved diff/apply_diff with the item views as builder and is compared with the implementation, the "
+              "keyed case of the C03 induction is not proved yet (C11 proves the list itself); the link between the "
+              "compared serialisation and the content function cs is proved (C03_serialisation_is_cs). Not in the "
+              "grammar: Result/ErrorBoundary, EitherKeepAlive, inner_html, prop: (needs a JS value), templates")
 TECHNIQUE = "Coq proof of an executable model + differential correspondence on the native DOM hook"
 
 TEXTS = ["", "a", "b", "cc", "<x>"]
